@@ -177,10 +177,15 @@ structure Coherent (s : Net) : Prop where
   byKeyIff : ∀ k, s.known k = true ↔ k ∈ s.g.keys
   svcComplete : ∀ e ∈ s.svcCache, ∀ p ∈ s.g.verified, e.1 ∈ s.g.servicesOf p.key → p.key ∈ e.2
   introComplete : ∀ e ∈ s.introCache, ∀ a w, (a, w) ∈ s.g.allAddr → w.intro = some e.1 → a ∈ e.2
+  /-- the index and the set hold the same OBJECT for every key -/
+  idxSame : ∀ k, aget k s.byKey = aget k s.vgen
+  /-- cached lists hold no entry twice -/
+  introNodup : ∀ e ∈ s.introCache, e.2.Nodup
+  svcNodup : ∀ e ∈ s.svcCache, e.2.Nodup
 
 theorem coherent_init (a b c : Nat) : Coherent (init a b c) :=
   ⟨by simp [init, Graph.keys], by simp [init, akeys], by simp [init, Net.known, Graph.keys],
-   by simp [init], by simp [init]⟩
+   by simp [init], by simp [init], by simp [init], by simp [init], by simp [init]⟩
 
 theorem mem_keys {g : Graph} {k : Key} : k ∈ g.keys ↔ ∃ p ∈ g.verified, p.key = k := by
   simp [Graph.keys]
@@ -207,11 +212,12 @@ theorem find_of_mem {g : Graph} (hn : g.keys.Nodup) {p : Peer} (hp : p ∈ g.ver
 /-- changing only `_all_addresses`, to a dict whose new entries have no introducer -/
 theorem coherent_allAddr {s : Net} (h : Coherent s) (all' : List (Addr × WAddr)) (hn : (akeys all').Nodup)
     (hsub : ∀ a w, (a, w) ∈ all' → (a, w) ∈ s.g.allAddr ∨ w.intro = none) :
-    Coherent { s with g := { s.g with allAddr := all' } } :=
-  ⟨h.keysNodup, hn, h.byKeyIff, h.svcComplete, fun e he a w haw hw => by
-    rcases hsub a w haw with h1 | h1
-    · exact h.introComplete e he a w h1 hw
-    · rw [h1] at hw; cases hw⟩
+    Coherent { s with g := { s.g with allAddr := all' } } := by
+  refine ⟨h.keysNodup, hn, h.byKeyIff, h.svcComplete, ?_, h.idxSame, h.introNodup, h.svcNodup⟩
+  intro e he a w haw hw
+  rcases hsub a w haw with h1 | h1
+  · exact h.introComplete e he a w h1 hw
+  · rw [h1] at hw; cases hw
 
 theorem addMissing_nodup (all : List (Addr × WAddr)) (l : List Addr) (h : (akeys all).Nodup) :
     (akeys (addMissing all l)).Nodup := by
@@ -259,7 +265,15 @@ theorem known_iff_akeys (s : Net) (k : Key) : s.known k = true ↔ k ∈ akeys s
 
 theorem coherent_verifyNew {s : Net} (h : Coherent s) (p : Peer) (hk : p.key ∉ s.g.keys) :
     Coherent (s.verifyNew p) := by
-  refine ⟨?_, h.addrNodup, ?_, ?_, h.introComplete⟩
+  refine ⟨?_, h.addrNodup, ?_, ?_, h.introComplete, ?_, h.introNodup, ?_⟩
+  rotate_left 3
+  · intro k
+    show aget k (aset p.key s.nextGen s.byKey) = aget k (aset p.key s.nextGen s.vgen)
+    by_cases hkk : k = p.key
+    · subst hkk; rw [aget_aset_self, aget_aset_self]
+    · rw [aget_aset_ne hkk, aget_aset_ne hkk]; exact h.idxSame k
+  · intro e he
+    exact h.svcNodup e (List.mem_filter.1 he).1
   · show (List.map (·.key) (s.g.verified ++ [p])).Nodup
     rw [List.map_append]
     exact List.Nodup.append h.keysNodup (by simp) (by simpa [Graph.keys] using hk)
@@ -279,22 +293,38 @@ theorem updateAddrs_key (p : Peer) (q : Peer) :
     (if q.key = p.key then { q with addrs := updateAddrs q.addrs p.addrs } else q).key = q.key := by
   split <;> rfl
 
+theorem map_update_keys (l : List Peer) (k : Key) (new : List (Nat × Addr)) :
+    List.map (·.key) (l.map (fun q => if q.key = k then { q with addrs := updateAddrs q.addrs new } else q))
+      = List.map (·.key) l := by
+  rw [List.map_map]; apply List.map_congr_left; intro q _
+  show (if q.key = k then { q with addrs := updateAddrs q.addrs new } else q).key = q.key
+  split <;> rfl
+
+theorem coherent_updateStored {s : Net} (h : Coherent s) (k : Key) (new : List (Nat × Addr)) :
+    Coherent (s.updateStored k new) := by
+  unfold Net.updateStored
+  split
+  · exact h
+  · split
+    · -- the index object is the set's object: its record changes, keys do not
+      have hkeys := map_update_keys s.g.verified k new
+      refine ⟨?_, h.addrNodup, ?_, ?_, h.introComplete, h.idxSame, h.introNodup, h.svcNodup⟩
+      · show (List.map _ _).Nodup; rw [hkeys]; exact h.keysNodup
+      · intro k'; show _ ↔ k' ∈ List.map _ _; rw [hkeys]; exact h.byKeyIff k'
+      · intro e he q hq hs
+        obtain ⟨q0, hq0, rfl⟩ := List.mem_map.1 hq
+        have hk0 : (if q0.key = k then { q0 with addrs := updateAddrs q0.addrs new } else q0).key = q0.key := by
+          split <;> rfl
+        rw [hk0] at hs ⊢
+        exact h.svcComplete e he q0 hq0 hs
+    · exact ⟨h.keysNodup, h.addrNodup, h.byKeyIff, h.svcComplete, h.introComplete, h.idxSame, h.introNodup, h.svcNodup⟩
+
 theorem coherent_addVerified {s : Net} (h : Coherent s) (p : Peer) : Coherent (s.addVerified p) := by
   unfold Net.addVerified
   split
   · exact h
   split
-  · -- address update of a known peer: keys unchanged
-    have hkeys : List.map (·.key) (s.g.verified.map
-        (fun q => if q.key = p.key then { q with addrs := updateAddrs q.addrs p.addrs } else q)) = s.g.keys := by
-      rw [List.map_map]; unfold Graph.keys; apply List.map_congr_left; intro q _; exact updateAddrs_key p q
-    refine ⟨?_, h.addrNodup, ?_, ?_, h.introComplete⟩
-    · show (List.map _ _).Nodup; rw [hkeys]; exact h.keysNodup
-    · intro k; show _ ↔ k ∈ List.map _ _; rw [hkeys]; exact h.byKeyIff k
-    · intro e he q hq hs
-      obtain ⟨q0, hq0, rfl⟩ := List.mem_map.1 hq
-      rw [updateAddrs_key] at hs ⊢
-      exact h.svcComplete e he q0 hq0 hs
+  · exact coherent_updateStored h _ _
   split
   · split
     · exact h
@@ -309,23 +339,39 @@ theorem coherent_addVerified {s : Net} (h : Coherent s) (p : Peer) : Coherent (s
 
 theorem coherent_introduce {s : Net} (h : Coherent s) (k : Key) (a : Addr) (svc : Option Svc) (ns : Bool) :
     Coherent (s.introduce k a svc ns) := by
-  refine ⟨h.keysNodup, nodup_akeys_aset h.addrNodup, h.byKeyIff, h.svcComplete, ?_⟩
-  intro e' he' a' w' haw hw
-  obtain ⟨e, he, rfl⟩ := List.mem_map.1 he'
-  rcases mem_aset haw with h1 | h1
-  · have hw' : w'.intro = some e.1 := by split at hw <;> exact hw
-    have := h.introComplete e he a' w' h1 hw'
+  refine ⟨h.keysNodup, nodup_akeys_aset h.addrNodup, h.byKeyIff, h.svcComplete, ?_, h.idxSame, ?_, h.svcNodup⟩
+  · intro e' he' a' w' haw hw
+    obtain ⟨e, he, rfl⟩ := List.mem_map.1 he'
+    rcases mem_aset haw with h1 | h1
+    · have hw' : w'.intro = some e.1 := by split at hw <;> exact hw
+      have := h.introComplete e he a' w' h1 hw'
+      split
+      · show a' ∈ (if a ∈ e.2 then e.2 else e.2 ++ [a])
+        split
+        · exact this
+        · exact List.mem_append_left _ this
+      · exact this
+    · simp only [Prod.mk.injEq] at h1
+      obtain ⟨rfl, rfl⟩ := h1
+      split
+      · show a' ∈ (if a' ∈ e.2 then e.2 else e.2 ++ [a'])
+        split
+        · assumption
+        · simp
+      · rename_i hne
+        split at hw
+        · contradiction
+        · simp only [Option.some.injEq] at hw; exact absurd hw.symm hne
+  · intro e' he'
+    obtain ⟨e, he, rfl⟩ := List.mem_map.1 he'
+    have hn := h.introNodup e he
     split
-    · exact List.mem_append_left _ this
-    · exact this
-  · simp only [Prod.mk.injEq] at h1
-    obtain ⟨rfl, rfl⟩ := h1
-    split
-    · simp
-    · rename_i hne
-      split at hw
-      · contradiction
-      · simp only [Option.some.injEq] at hw; exact absurd hw.symm hne
+    · show (if a ∈ e.2 then e.2 else e.2 ++ [a]).Nodup
+      split
+      · exact hn
+      · rename_i hna
+        exact List.Nodup.append hn (by simp) (by simpa using hna)
+    · exact hn
 
 theorem coherent_discoverAddress {s : Net} (h : Coherent s) (p : Peer) (a : Addr) (svc : Option Svc) (ns : Bool) :
     Coherent (s.discoverAddress p a svc ns) := by
@@ -379,6 +425,24 @@ theorem touch_fold (k : Key) (svcs : List Svc) (c : List (Svc × List Key)) (e' 
       · apply h2; simp [hmem]
       · apply h3; split <;> exact hmem
 
+theorem touch_fold_nodup (k : Key) (svcs : List Svc) (c : List (Svc × List Key)) (hc : ∀ e ∈ c, e.2.Nodup) :
+    ∀ e' ∈ svcs.foldl (touchSvc k) c, e'.2.Nodup := by
+  induction svcs generalizing c with
+  | nil => exact hc
+  | cons sv t ih =>
+    apply ih
+    intro e' he'
+    obtain ⟨e, he, rfl⟩ := List.mem_map.1 he'
+    have hn := hc e he
+    split
+    · show (e.2.erase k ++ [k]).Nodup
+      refine List.Nodup.append (hn.erase k) (by simp) ?_
+      intro x hx hx'
+      rw [List.mem_singleton] at hx'
+      subst hx'
+      exact ((hn.mem_erase_iff).1 hx).1 rfl
+    · exact hn
+
 theorem servicesOf_aset (g : Graph) (k k' : Key) (l : List Svc) :
     ({ g with services := aset k l g.services } : Graph).servicesOf k' = if k' = k then l else g.servicesOf k' := by
   unfold Graph.servicesOf
@@ -388,7 +452,8 @@ theorem servicesOf_aset (g : Graph) (k k' : Key) (l : List Svc) :
 
 theorem coherent_discoverServices {s : Net} (h : Coherent s) (p : Peer) (svcs : List Svc) :
     Coherent (s.discoverServices p svcs) := by
-  refine ⟨h.keysNodup, h.addrNodup, h.byKeyIff, ?_, h.introComplete⟩
+  refine ⟨h.keysNodup, h.addrNodup, h.byKeyIff, ?_, h.introComplete, h.idxSame, h.introNodup,
+    touch_fold_nodup p.key svcs s.svcCache h.svcNodup⟩
   intro e' he' q hq hs
   obtain ⟨e, he, h1, h2, h3⟩ := touch_fold p.key svcs s.svcCache e' he'
   have hs' : e'.1 ∈ (if q.key = p.key then unionSvcs (s.g.servicesOf p.key) svcs else s.g.servicesOf q.key) := by
@@ -410,7 +475,12 @@ theorem servicesOf_filter_subset (g g' : Graph) (P : Key → Bool) (k : Key) (sv
   · simp at h
 
 theorem coherent_removePeer {s : Net} (h : Coherent s) (p : Peer) : Coherent (s.removePeer p) := by
-  refine ⟨?_, nodup_akeys_filter _ h.addrNodup, ?_, ?_, ?_⟩
+  refine ⟨?_, nodup_akeys_filter _ h.addrNodup, ?_, ?_, ?_, ?_, h.introNodup, h.svcNodup⟩
+  rotate_left 4
+  · intro k
+    show aget k (adel p.key s.byKey) = aget k (adel p.key s.vgen)
+    unfold adel
+    rw [aget_filter_key (fun k' => !decide (k' = p.key)), aget_filter_key (fun k' => !decide (k' = p.key)), h.idxSame]
   · exact List.Nodup.sublist (List.Sublist.map _ List.filter_sublist) h.keysNodup
   · intro k
     have h1 : (s.removePeer p).known k = if (!decide (k = p.key)) = true then s.known k else false := by
@@ -435,7 +505,13 @@ theorem coherent_removePeer {s : Net} (h : Coherent s) (p : Peer) : Coherent (s.
     exact h.introComplete e he a w (List.mem_filter.1 haw).1 hw
 
 theorem coherent_removeByAddress {s : Net} (h : Coherent s) (a : Addr) : Coherent (s.removeByAddress a) := by
-  refine ⟨?_, nodup_akeys_filter _ h.addrNodup, ?_, ?_, ?_⟩
+  refine ⟨?_, nodup_akeys_filter _ h.addrNodup, ?_, ?_, ?_, ?_, h.introNodup, h.svcNodup⟩
+  rotate_left 4
+  · intro k
+    show aget k (s.byKey.filter _) = aget k (s.vgen.filter _)
+    rw [aget_filter_key (fun k' => !decide (k' ∈ (s.g.verified.filter (fun q : Peer => q.hasAddr a)).map (fun x : Peer => x.key))),
+      aget_filter_key (fun k' => !decide (k' ∈ (s.g.verified.filter (fun q : Peer => q.hasAddr a)).map (fun x : Peer => x.key))),
+      h.idxSame]
   · exact List.Nodup.sublist (List.Sublist.map _ List.filter_sublist) h.keysNodup
   · intro k
     let gone : List Key := (s.g.verified.filter (fun q => q.hasAddr a)).map (·.key)
@@ -486,31 +562,41 @@ theorem coherent_getByAddr {s : Net} (h : Coherent s) (a : Addr) (hint : Option 
     Coherent (s.getByAddr a hint).2 := by
   obtain ⟨c, hc⟩ := getByAddr_state s a hint
   rw [hc]
-  exact ⟨h.keysNodup, h.addrNodup, h.byKeyIff, h.svcComplete, h.introComplete⟩
+  exact ⟨h.keysNodup, h.addrNodup, h.byKeyIff, h.svcComplete, h.introComplete, h.idxSame, h.introNodup, h.svcNodup⟩
 
-theorem chooseByAddr_some {s : Net} {a : Addr} {hint : Option Key} {p : Peer}
-    (h : s.chooseByAddr a hint = some p) : p ∈ s.g.verified ∧ p.hasAddr a = true := by
-  unfold Net.chooseByAddr at h
-  simp only at h
-  split at h
+theorem deref_live {s : Net} (h : Coherent s) {k : Key} {gen : Nat} {obj : Peer}
+    (hi : aget k s.byKey = some gen) (hd : s.deref k gen = some obj) : obj ∈ s.g.verified ∧ obj.key = k := by
+  unfold Net.deref at hd
+  rw [← h.idxSame k, hi] at hd
+  simp only [if_true] at hd
+  exact find_some hd
+
+theorem chooseByAddr_some {s : Net} (h : Coherent s) {a : Addr} {hint : Option Key} {p : Peer}
+    (hc : s.chooseByAddr a hint = some p) : p ∈ s.g.verified ∧ p.hasAddr a = true := by
+  unfold Net.chooseByAddr at hc
+  simp only at hc
+  split at hc
   · rename_i q hq
-    cases h
+    cases hc
     split at hq
-    · have := List.mem_filter.1 (List.mem_of_find?_eq_some hq)
-      exact this
+    · exact List.mem_filter.1 (List.mem_of_find?_eq_some hq)
     · cases hq
-  · split at h
+  · split at hc
     · rename_i q hq
-      cases h
+      cases hc
+      -- the cached object: only trusted when the index still holds this very object and it still has the address
       split at hq
-      · split at hq
-        · have h1 := List.mem_of_find?_eq_some hq
-          have h2 := List.find?_some hq
-          simp only [Bool.and_eq_true, decide_eq_true_eq] at h2
-          exact ⟨h1, h2.2⟩
+      · rename_i k gen hcache
+        split at hq
+        · rename_i obj hobj
+          split at hq
+          · rename_i hcond
+            cases hq
+            exact ⟨(deref_live h hcond.1 hobj).1, by simpa [Peer.hasAddr] using hcond.2⟩
+          · cases hq
         · cases hq
       · cases hq
-    · exact List.mem_filter.1 (List.mem_of_mem_head? h)
+    · exact List.mem_filter.1 (List.mem_of_mem_head? hc)
 
 theorem chooseByAddr_none {s : Net} {a : Addr} {hint : Option Key} (h : s.chooseByAddr a hint = none) :
     s.g.verified.filter (fun p => p.hasAddr a) = [] := by
@@ -522,12 +608,13 @@ theorem chooseByAddr_none {s : Net} {a : Addr} {hint : Option Key} (h : s.choose
     · cases h
     · exact List.head?_eq_none_iff.1 h
 
-theorem getByAddr_ok (s : Net) (a : Addr) (hint : Option Key) : s.g.AnsAddr a (s.getByAddr a hint).1 := by
+theorem getByAddr_ok {s : Net} (h : Coherent s) (a : Addr) (hint : Option Key) :
+    s.g.AnsAddr a (s.getByAddr a hint).1 := by
   unfold Net.getByAddr
   simp only
   split
   · rename_i p hp
-    have := chooseByAddr_some hp
+    have := chooseByAddr_some h hp
     exact ⟨this.1, by simpa [Peer.hasAddr] using this.2⟩
   · rename_i hp
     have := chooseByAddr_none hp
@@ -539,69 +626,102 @@ theorem getByAddr_ok (s : Net) (a : Addr) (hint : Option Key) : s.g.AnsAddr a (s
 theorem getByKey_ok {s : Net} (h : Coherent s) (k : Key) : s.g.AnsKey k (s.getByKey k) := by
   unfold Net.getByKey
   split
-  · cases hf : s.g.find k with
-    | some p => exact find_some hf
+  · rename_i gen hi
+    cases hd : s.deref k gen with
+    | some p => exact deref_live h hi hd
     | none =>
       intro p hp hk
-      unfold Graph.find at hf
-      have := List.find?_eq_none.1 hf p hp
+      unfold Net.deref at hd
+      rw [← h.idxSame k, hi] at hd
+      simp only [if_true] at hd
+      unfold Graph.find at hd
+      have := List.find?_eq_none.1 hd p hp
       simp [hk] at this
   · rename_i hk
     intro p hp hpk
-    exact hk ((h.byKeyIff k).2 (mem_keys.2 ⟨p, hp, hpk⟩))
+    have : s.known k = true := (h.byKeyIff k).2 (mem_keys.2 ⟨p, hp, hpk⟩)
+    unfold Net.known at this
+    rw [hk] at this
+    cases this
 
 theorem peersForService_state (s : Net) (sv : Svc) :
     (s.peersForService sv).2 =
       { s with svcCache := lruPut (adel sv s.svcCache) sv ((s.peersForService sv).1.map (·.key)) s.svcCap } := rfl
 
+theorem nodup_verified {g : Graph} (hn : g.keys.Nodup) : g.verified.Nodup := List.Nodup.of_map _ hn
+
 theorem peersForService_ok {s : Net} (h : Coherent s) (sv : Svc) : s.g.AnsService sv (s.peersForService sv).1 := by
   unfold Net.peersForService
   simp only
-  intro p
   split
-  · simp [Graph.hasService]
+  · refine ⟨(nodup_verified h.keysNodup).filter _, fun p => ?_⟩
+    simp [Graph.hasService]
   · rename_i l hl
-    simp only [List.mem_filterMap, List.mem_filter, Bool.and_eq_true, decide_eq_true_eq, Graph.hasService]
-    constructor
-    · rintro ⟨k, ⟨_, _, hsv⟩, hf⟩
-      obtain ⟨hp, rfl⟩ := find_some hf
-      exact ⟨hp, hsv⟩
-    · rintro ⟨hp, hsv⟩
-      exact ⟨p.key, ⟨h.svcComplete _ (aget_some_mem hl) p hp hsv, mem_keys.2 ⟨p, hp, rfl⟩, hsv⟩,
-        find_of_mem h.keysNodup hp⟩
+    refine ⟨?_, fun p => ?_⟩
+    · refine List.Nodup.filterMap ?_ ((h.svcNodup _ (aget_some_mem hl)).filter _)
+      intro k k' p hk hk'
+      rw [(find_some (Option.mem_def.1 hk)).2.symm, (find_some (Option.mem_def.1 hk')).2]
+    · simp only [List.mem_filterMap, List.mem_filter, Bool.and_eq_true, decide_eq_true_eq, Graph.hasService]
+      constructor
+      · rintro ⟨k, ⟨_, _, hsv⟩, hf⟩
+        obtain ⟨hp, rfl⟩ := find_some hf
+        exact ⟨hp, hsv⟩
+      · rintro ⟨hp, hsv⟩
+        exact ⟨p.key, ⟨h.svcComplete _ (aget_some_mem hl) p hp hsv, mem_keys.2 ⟨p, hp, rfl⟩, hsv⟩,
+          find_of_mem h.keysNodup hp⟩
 
 theorem coherent_peersForService {s : Net} (h : Coherent s) (sv : Svc) : Coherent (s.peersForService sv).2 := by
+  have hok := peersForService_ok h sv
   rw [peersForService_state]
-  refine ⟨h.keysNodup, h.addrNodup, h.byKeyIff, ?_, h.introComplete⟩
-  intro e he q hq hs
-  rcases mem_lruPut he with h1 | h1
-  · exact h.svcComplete e (List.mem_filter.1 h1).1 q hq hs
-  · subst h1
-    exact List.mem_map.2 ⟨q, ((peersForService_ok h sv) q).2 ⟨hq, hs⟩, rfl⟩
+  refine ⟨h.keysNodup, h.addrNodup, h.byKeyIff, ?_, h.introComplete, h.idxSame, h.introNodup, ?_⟩
+  · intro e he q hq hs
+    rcases mem_lruPut he with h1 | h1
+    · exact h.svcComplete e (List.mem_filter.1 h1).1 q hq hs
+    · subst h1
+      exact List.mem_map.2 ⟨q, (hok.2 q).2 ⟨hq, hs⟩, rfl⟩
+  · intro e he
+    rcases mem_lruPut he with h1 | h1
+    · exact h.svcNodup e (List.mem_filter.1 h1).1
+    · subst h1
+      refine List.Nodup.map_on ?_ hok.1
+      intro x hx y hy hxy
+      exact same_of_key h.keysNodup ((hok.2 x).1 hx).1 ((hok.2 y).1 hy).1 hxy
 
 theorem walkable_state (s : Net) (svc : Option Svc) (o : Bool) :
-    (s.walkable svc o).2 = match svc with | none => s | some sv => (s.peersForService sv).2 := by
-  cases svc <;> rfl
+    (s.walkable svc o).2 = match truthy svc with | none => s | some sv => (s.peersForService sv).2 := by
+  unfold Net.walkable
+  cases truthy svc with
+  | none => rfl
+  | some sv => rfl
+
+theorem walkable_g (s : Net) (svc : Option Svc) (o : Bool) : (s.walkable svc o).2.g = s.g := by
+  rw [walkable_state]
+  cases truthy svc with
+  | none => rfl
+  | some sv => rfl
 
 theorem coherent_walkable {s : Net} (h : Coherent s) (svc : Option Svc) (o : Bool) : Coherent (s.walkable svc o).2 := by
   rw [walkable_state]
-  cases svc with
-  | none => exact h
-  | some sv => exact coherent_peersForService h sv
+  split
+  · exact h
+  · exact coherent_peersForService h _
 
 theorem mem_akeys_iff {α β : Type} {l : List (α × β)} {k : α} : k ∈ akeys l ↔ ∃ v, (k, v) ∈ l := by
   simp [akeys]
 
 theorem walkable_ok {s : Net} (h : Coherent s) (svc : Option Svc) (o : Bool) : s.g.AnsWalk svc o (s.walkable svc o).1 := by
-  cases svc with
-  | none =>
-    intro a
-    simp only [Net.walkable, List.mem_filter, List.mem_flatMap, Bool.not_eq_true', decide_eq_false_iff_not, not_exists,
+  unfold Graph.AnsWalk Net.walkable
+  split
+  · rename_i htr
+    simp only [htr]
+    refine ⟨h.addrNodup.filter _, fun a => ?_⟩
+    simp only [List.mem_filter, List.mem_flatMap, Bool.not_eq_true', decide_eq_false_iff_not, not_exists,
       not_and]
-  | some sv =>
-    intro a
-    have hps := peersForService_ok h sv
-    simp only [Net.walkable, List.mem_filter, List.mem_flatMap, Bool.not_eq_true', decide_eq_false_iff_not, not_exists,
+  · rename_i sv htr
+    simp only [htr]
+    refine ⟨(h.addrNodup.filter _).filter _, fun a => ?_⟩
+    have hps := (peersForService_ok h sv).2
+    simp only [List.mem_filter, List.mem_flatMap, Bool.not_eq_true', decide_eq_false_iff_not, not_exists,
       not_and]
     constructor
     · rintro ⟨⟨hk, hnot⟩, hf⟩
@@ -635,9 +755,9 @@ theorem walkable_ok {s : Net} (h : Coherent s) (svc : Option Svc) (o : Bool) : s
 
 theorem introsFrom_ok {s : Net} (h : Coherent s) (k : Key) : s.g.AnsIntro k (s.introsFrom k).1 := by
   unfold Net.introsFrom
-  intro a
   split
   · rename_i l hl
+    refine ⟨(h.introNodup _ (aget_some_mem hl)).filter _, fun a => ?_⟩
     simp only [List.mem_filter, Graph.introducedBy]
     constructor
     · rintro ⟨_, hv⟩
@@ -647,7 +767,8 @@ theorem introsFrom_ok {s : Net} (h : Coherent s) (k : Key) : s.g.AnsIntro k (s.i
     · rintro ⟨w, hw, hi⟩
       refine ⟨h.introComplete _ (aget_some_mem hl) a w hw hi, ?_⟩
       rw [mem_aget_of_nodup h.addrNodup hw]; simpa using hi
-  · simp only [akeys, List.mem_map, List.mem_filter, decide_eq_true_eq]
+  · refine ⟨nodup_akeys_filter _ h.addrNodup, fun a => ?_⟩
+    simp only [akeys, List.mem_map, List.mem_filter, decide_eq_true_eq]
     constructor
     · rintro ⟨⟨a', w⟩, ⟨hm, hi⟩, rfl⟩; exact ⟨w, hm, hi⟩
     · rintro ⟨w, hm, hi⟩; exact ⟨(a, w), ⟨hm, hi⟩, rfl⟩
@@ -658,18 +779,26 @@ theorem coherent_introsFrom {s : Net} (h : Coherent s) (k : Key) : Coherent (s.i
   split
   · rename_i l hl
     simp only [hl] at hok
-    refine ⟨h.keysNodup, h.addrNodup, h.byKeyIff, h.svcComplete, ?_⟩
-    intro e he a w haw hw
-    rcases mem_aset he with h1 | h1
-    · exact h.introComplete e h1 a w haw hw
-    · subst h1; exact (hok a).2 ⟨w, haw, hw⟩
+    refine ⟨h.keysNodup, h.addrNodup, h.byKeyIff, h.svcComplete, ?_, h.idxSame, ?_, h.svcNodup⟩
+    · intro e he a w haw hw
+      rcases mem_aset he with h1 | h1
+      · exact h.introComplete e h1 a w haw hw
+      · subst h1; exact (hok.2 a).2 ⟨w, haw, hw⟩
+    · intro e he
+      rcases mem_aset he with h1 | h1
+      · exact h.introNodup e h1
+      · subst h1; exact hok.1
   · rename_i hl
     simp only [hl] at hok
-    refine ⟨h.keysNodup, h.addrNodup, h.byKeyIff, h.svcComplete, ?_⟩
-    intro e he a w haw hw
-    rcases mem_lruPut he with h1 | h1
-    · exact h.introComplete e h1 a w haw hw
-    · subst h1; exact (hok a).2 ⟨w, haw, hw⟩
+    refine ⟨h.keysNodup, h.addrNodup, h.byKeyIff, h.svcComplete, ?_, h.idxSame, ?_, h.svcNodup⟩
+    · intro e he a w haw hw
+      rcases mem_lruPut he with h1 | h1
+      · exact h.introComplete e h1 a w haw hw
+      · subst h1; exact (hok.2 a).2 ⟨w, haw, hw⟩
+    · intro e he
+      rcases mem_lruPut he with h1 | h1
+      · exact h.introNodup e h1
+      · subst h1; exact hok.1
 
 theorem coherent_step {s : Net} (h : Coherent s) (op : Op) : Coherent (step s op) := by
   cases op with
@@ -678,9 +807,10 @@ theorem coherent_step {s : Net} (h : Coherent s) (op : Op) : Coherent (step s op
   | svcs p l => exact coherent_discoverServices h p l
   | rmPeer p => exact coherent_removePeer h p
   | rmAddr a => exact coherent_removeByAddress h a
-  | blAddr a => exact ⟨h.keysNodup, h.addrNodup, h.byKeyIff, h.svcComplete, h.introComplete⟩
-  | blMid k => exact ⟨h.keysNodup, h.addrNodup, h.byKeyIff, h.svcComplete, h.introComplete⟩
+  | blAddr a => exact ⟨h.keysNodup, h.addrNodup, h.byKeyIff, h.svcComplete, h.introComplete, h.idxSame, h.introNodup, h.svcNodup⟩
+  | blMid k => exact ⟨h.keysNodup, h.addrNodup, h.byKeyIff, h.svcComplete, h.introComplete, h.idxSame, h.introNodup, h.svcNodup⟩
   | load d => exact coherent_loadSnapshot h d
+  | setAddr k slot a => exact coherent_updateStored h k _
   | qAddr a hint => exact coherent_getByAddr h a hint
   | qKey k => exact h
   | qSvc sv => exact coherent_peersForService h sv
@@ -698,44 +828,70 @@ theorem known_eq {s : Net} (hk : ∀ k, s.known k = true ↔ k ∈ s.g.keys) (k 
     s.known k = decide (k ∈ s.g.keys) := by
   rw [Bool.eq_iff_iff]; simpa using hk k
 
-theorem addVerified_g {s : Net} (hk : ∀ k, s.known k = true ↔ k ∈ s.g.keys) (p : Peer) :
+theorem map_update_noop (l : List Peer) (k : Key) (new : List (Nat × Addr)) (hk : k ∉ l.map (·.key)) :
+    l.map (fun q => if q.key = k then { q with addrs := updateAddrs q.addrs new } else q) = l := by
+  conv_rhs => rw [← List.map_id l]
+  apply List.map_congr_left
+  intro q hq
+  have : q.key ≠ k := fun e => hk (List.mem_map.2 ⟨q, hq, e⟩)
+  simp [this]
+
+/-- the in-place update reaches the set's record: needs the index to hold the set's object -/
+theorem updateStored_g {s : Net} (h : Coherent s) (k : Key) (new : List (Nat × Addr)) :
+    (s.updateStored k new).g = s.g.updateStored k new := by
+  unfold Net.updateStored Graph.updateStored
+  split
+  · rename_i hi
+    have hk : k ∉ s.g.keys := by
+      intro hk
+      have := (h.byKeyIff k).2 hk
+      unfold Net.known at this; rw [hi] at this; cases this
+    show s.g = _
+    rw [map_update_noop _ _ _ hk]
+  · rename_i gen hi
+    have : aget k s.vgen = some gen := by rw [← h.idxSame k]; exact hi
+    simp only [this, if_true]
+
+theorem addVerified_g {s : Net} (h : Coherent s) (p : Peer) :
     (s.addVerified p).g = s.g.addVerified p := by
+  have hk := h.byKeyIff
   unfold Net.addVerified Graph.addVerified
   rw [known_eq hk]
   by_cases h1 : p.key ∈ s.g.blMid
   · simp [h1]
   · by_cases h2 : p.key ∈ s.g.keys
-    · simp [h1, h2]
+    · simp only [h1, h2, if_false, if_true, decide_true]
+      exact updateStored_g h _ _
     · simp only [h1, h2, if_false, decide_false, Bool.false_eq_true]
       split
       · rfl
       · split <;> rfl
 
-theorem discoverAddress_g {s : Net} (hk : ∀ k, s.known k = true ↔ k ∈ s.g.keys) (p : Peer) (a : Addr)
+theorem discoverAddress_g {s : Net} (h : Coherent s) (p : Peer) (a : Addr)
     (svc : Option Svc) (ns : Bool) : (s.discoverAddress p a svc ns).g = s.g.discoverAddress p a svc ns := by
+  have hk := h.byKeyIff
   unfold Net.discoverAddress Graph.discoverAddress
   by_cases hbl : a ∈ s.g.blAddr
-  · simp only [hbl, if_true]; exact addVerified_g hk p
+  · simp only [hbl, if_true]; exact addVerified_g h p
   · simp only [hbl, if_false]
     have hb : needsIntro s.g.allAddr s.known a = needsIntro s.g.allAddr (fun k => decide (k ∈ s.g.keys)) a := by
       congr 1; funext k; exact known_eq hk k
     rw [hb]
     generalize needsIntro s.g.allAddr (fun k => decide (k ∈ s.g.keys)) a = b
     cases b
-    · exact addVerified_g hk p
-    · exact addVerified_g (s := s.introduce p.key a svc ns) hk p
+    · exact addVerified_g h p
+    · exact addVerified_g (coherent_introduce h p.key a svc ns) p
 
 theorem step_g {s : Net} (h : Coherent s) (op : Op) : (step s op).g = s.g.step op := by
   cases op with
-  | add p => exact addVerified_g h.byKeyIff p
-  | disc p a svc ns => exact discoverAddress_g h.byKeyIff p a svc ns
+  | add p => exact addVerified_g h p
+  | disc p a svc ns => exact discoverAddress_g h p a svc ns
+  | setAddr k slot a => exact updateStored_g h k _
   | qAddr a hint =>
     obtain ⟨c, hc⟩ := getByAddr_state s a hint
     show (s.getByAddr a hint).2.g = s.g
     rw [hc]
-  | qWalk svc o =>
-    show (s.walkable svc o).2.g = s.g
-    rw [walkable_state]; cases svc <;> rfl
+  | qWalk svc o => exact walkable_g s svc o
   | qIntro k =>
     show (s.introsFrom k).2.g = s.g
     unfold Net.introsFrom; split <;> rfl
@@ -757,9 +913,7 @@ theorem query_g (s : Net) (op : Op) (hq : op.isQuery = true) : (step s op).g = s
     rw [hc]
   | qKey k => rfl
   | qSvc sv => rfl
-  | qWalk svc o =>
-    show (s.walkable svc o).2.g = s.g
-    rw [walkable_state]; cases svc <;> rfl
+  | qWalk svc o => exact walkable_g s svc o
   | qIntro k =>
     show (s.introsFrom k).2.g = s.g
     unfold Net.introsFrom; split <;> rfl
@@ -795,6 +949,9 @@ theorem addVerified_blMid (g : Graph) (p : Peer) : (g.addVerified p).blMid = g.b
   split; · rfl
   split <;> rfl
 
+theorem updateStored_keys (g : Graph) (k : Key) (new : List (Nat × Addr)) : (g.updateStored k new).keys = g.keys :=
+  map_update_keys g.verified k new
+
 theorem addVerified_keys (g : Graph) (p : Peer) (k : Key) (h : k ∈ (g.addVerified p).keys) :
     k ∈ g.keys ∨ (k = p.key ∧ p.key ∉ g.blMid) := by
   unfold Graph.addVerified at h
@@ -802,9 +959,7 @@ theorem addVerified_keys (g : Graph) (p : Peer) (k : Key) (h : k ∈ (g.addVerif
   rename_i hbl
   split at h
   · left
-    simp only [Graph.keys, List.map_map] at h ⊢
-    obtain ⟨q, hq, rfl⟩ := List.mem_map.1 h
-    exact List.mem_map.2 ⟨q, hq, (updateAddrs_key p q).symm⟩
+    rw [updateStored_keys] at h; exact h
   split at h
   · simp only [Graph.keys, List.map_append, List.mem_append, List.map_cons, List.map_nil, List.mem_singleton] at h
     rcases h with h | h
@@ -847,6 +1002,7 @@ theorem step_blacklisted (g : Graph) (op : Op) (k : Key) (hb : k ∈ g.blMid) (h
     obtain ⟨q, ⟨hq, _⟩, rfl⟩ := h; exact ⟨q, hq, rfl⟩
   | blAddr a => exact ⟨hb, hk⟩
   | blMid k' => exact ⟨by simp [Graph.step, hb], hk⟩
+  | setAddr k' slot a => exact ⟨hb, by rw [Graph.step, updateStored_keys]; exact hk⟩
   | load d => exact ⟨hb, hk⟩
   | qAddr a hint => exact ⟨hb, hk⟩
   | qKey k => exact ⟨hb, hk⟩
@@ -890,10 +1046,17 @@ theorem length_touch_fold (k : Key) (svcs : List Svc) (c : List (Svc × List Key
 theorem bounded_verifyNew {s : Net} (h : Bounded s) (p : Peer) : Bounded (s.verifyNew p) :=
   ⟨h.ip, h.intro, Nat.le_trans (List.length_filter_le _ _) h.svc⟩
 
+theorem bounded_updateStored {s : Net} (h : Bounded s) (k : Key) (new : List (Nat × Addr)) :
+    Bounded (s.updateStored k new) := by
+  unfold Net.updateStored
+  split
+  · exact h
+  · split <;> exact ⟨h.ip, h.intro, h.svc⟩
+
 theorem bounded_addVerified {s : Net} (h : Bounded s) (p : Peer) : Bounded (s.addVerified p) := by
   unfold Net.addVerified
   split; · exact h
-  split; · exact ⟨h.ip, h.intro, h.svc⟩
+  split; · exact bounded_updateStored h _ _
   split
   · split
     · exact h
@@ -926,6 +1089,7 @@ theorem bounded_step {s : Net} (h : Bounded s) (op : Op) : Bounded (step s op) :
   | blAddr a => exact ⟨h.ip, h.intro, h.svc⟩
   | blMid k => exact ⟨h.ip, h.intro, h.svc⟩
   | load d => exact ⟨h.ip, h.intro, h.svc⟩
+  | setAddr k slot a => exact bounded_updateStored h k _
   | qAddr a hint =>
     show Bounded (s.getByAddr a hint).2
     have hd : (adel a s.ipCache).length ≤ s.ipCap := Nat.le_trans (length_adel_le _ _) h.ip
@@ -940,7 +1104,7 @@ theorem bounded_step {s : Net} (h : Bounded s) (op : Op) : Bounded (step s op) :
   | qWalk svc o =>
     show Bounded (s.walkable svc o).2
     rw [walkable_state]
-    cases svc with
+    cases truthy svc with
     | none => exact h
     | some sv => exact ⟨h.ip, h.intro, length_lruPut (Nat.le_trans (length_adel_le _ _) h.svc)⟩
   | qIntro k =>
@@ -976,7 +1140,7 @@ theorem fit_eq {n : Nat} {b : Bytes} (h : b.length = n) : fit n b = b := by
 def WFAddr (a : Addr) : Prop :=
   (a.kind = 4 ∧ a.host.length = Gen.v4HostLen ∧ a.port < 65536) ∨
   (a.kind = 6 ∧ a.host.length = Gen.v6HostLen ∧ a.port < 65536) ∨
-  (a.kind = 0 ∧ a.host.length < 65536 ∧ asciiOnly a.host = true ∧ a.port < 65536)
+  (a.kind = 0 ∧ a.host.length < 65536 ∧ utf8Valid a.host = true ∧ a.port < 65536)
 
 theorem decode_encode (a : Addr) (rest : Bytes) (h : WFAddr a) :
     decodeAddr (encodeAddr a ++ rest) = some (a, (encodeAddr a).length) := by
@@ -1087,11 +1251,11 @@ theorem no_lookup_returns {s : Net} (h : Coherent s) {k : Key} (hk : k ∉ s.g.k
       rw [hr] at this
       exact absurd (mem_keys.2 ⟨q, this.1, this.2⟩) hk
   · intro a hint q hq hqk
-    have := getByAddr_ok s a hint
+    have := getByAddr_ok h a hint
     rw [hq] at this
     exact hk (mem_keys.2 ⟨q, this.1, hqk⟩)
   · intro sv q hq hqk
-    exact hk (mem_keys.2 ⟨q, ((peersForService_ok h sv) q).1 hq |>.1, hqk⟩)
+    exact hk (mem_keys.2 ⟨q, ((peersForService_ok h sv).2 q).1 hq |>.1, hqk⟩)
 
 theorem getByKey_of_mem {s : Net} (h : Coherent s) {p : Peer} (hp : p ∈ s.g.verified) : s.getByKey p.key = some p := by
   have := getByKey_ok h p.key
@@ -1173,6 +1337,7 @@ theorem step_blAddr (g : Graph) (op : Op) (a : Addr) (hl : op.isLoad = false) (h
     obtain ⟨e, ⟨he, _⟩, rfl⟩ := h; exact ⟨e, he, rfl⟩
   | blAddr x => exact ⟨by simp [Graph.step, hb], hk⟩
   | blMid k' => exact ⟨hb, hk⟩
+  | setAddr k' slot a' => exact ⟨hb, hk⟩
   | load d => simp [Op.isLoad] at hl
   | qAddr x hint => exact ⟨hb, hk⟩
   | qKey k => exact ⟨hb, hk⟩
@@ -1259,6 +1424,7 @@ theorem step_only_blacklisted (g : Graph) (op : Op) (x : Addr) (k : Key) (hl : o
     obtain ⟨q, ⟨hq, _⟩, rfl⟩ := h; exact ⟨q, hq, rfl⟩
   | blAddr a => exact hkey
   | blMid k' => exact hkey
+  | setAddr k' slot a => rw [Graph.step, updateStored_keys]; exact hkey
   | load d => simp [Op.isLoad] at hl
   | qAddr a hint => exact hkey
   | qKey k' => exact hkey
@@ -1295,5 +1461,23 @@ theorem addVerified_known_address (g : Graph) (p : Peer) (hk : p.key ∉ g.keys)
       obtain ⟨y, hy⟩ := List.exists_mem_of_ne_nil _ hne
       exact ⟨y, hy, (addMissing_akeys _ _ _).2 (Or.inr hy)⟩
     · rw [if_neg hall] at hk'; exact absurd hk' hk
+
+
+/-- every entry load_snapshot writes is `WalkableAddress(b"", None, False)` -/
+theorem loadAddrs_entries (all : List (Addr × WAddr)) (l : List Addr) (a : Addr) (w : WAddr)
+    (h : (a, w) ∈ loadAddrs all l) : (a, w) ∈ all ∨ w = ⟨none, none, false⟩ := by
+  induction l generalizing all with
+  | nil => exact Or.inl h
+  | cons x t ih =>
+    rcases ih _ h with h1 | h1
+    · rcases mem_aset h1 with h2 | h2
+      · exact Or.inl h2
+      · right; simp only [Prod.mk.injEq] at h2; exact h2.2
+    · exact Or.inr h1
+
+theorem truthy_some {sv : Svc} (h : sv ≠ 0) : truthy (some sv) = some sv := by
+  cases sv with
+  | zero => exact absurd rfl h
+  | succ n => rfl
 
 end Ipv8.C12
